@@ -98,6 +98,10 @@ package engine
 //@   loop 3 invariant forall k int :: 0 <= k && k < len(deltaRules) ==> exists j int :: 0 <= j && j < rangeindex#2 + 1 && recPremise(decls, clause.Premises[j]) && deltaRules[k] == makeSingleDeltaRule(clause, j)
 //@   loop 3 atexit len(deltaRules) == nRec(decls, clause.Premises, len(clause.Premises))
 //@   guard call makeSingleDeltaRule: arg0 == clause && recPremise(decls, clause.Premises[arg1])
+// The delta rules of the clauses of one predicate ACCUMULATE: each clause appends its own to what earlier clauses of
+// the predicate put there (were they overwritten, only the last clause of a recursive predicate would be iterated and
+// the result would depend on the order in which the clauses are written).
+//@   loop 2 atback clause.Transform == nil || clause.Transform.IsLetTransform() ==> len(predToDeltaRules[pred]) == prev(len(predToDeltaRules[pred])) + len(deltaRules)
 
 // C17: every early exit of the first round and of the incremental rounds reports an error, and while rounds
 // continue the store stays within the total fact limit.
